@@ -199,14 +199,15 @@ fn main() {
         let fails = if part != "pb" { explore(move || scenario(sc), budget, opts.seed + i as u64 * 31, &stats, 3) } else { vec![] };
         // systematic part: every schedule with at most `bound` preemptions (CHESS-style), see sched::enumerate_pb
         let small = s.threads == 2 && s.pairs == 1;
-        let (bound, cap) = if opts.thorough() {
-            if small && s.clock_step == 0 { (3, 2_000_000) } else if s.threads == 2 { (2, 600_000) } else { (2, 300_000) }
+        // (bound, cap on free deviations per schedule, cap on executions)
+        let (bound, free, cap) = if opts.thorough() {
+            if small && s.clock_step == 0 { (3, 3, 2_000_000) } else if s.threads == 2 { (2, 3, 600_000) } else { (2, 2, 300_000) }
         } else if small && s.clock_step == 0 {
-            (2, 40_000)
+            (2, 3, 40_000)
         } else {
-            (1, 8_000)
+            (1, 1, 12_000)
         };
-        let pb = enumerate_pb(move || scenario(sc), bound, if part == "sampled" { 1 } else { cap }, 0, 1, &stats, 3);
+        let pb = enumerate_pb_free(move || scenario(sc), bound, free, if part == "sampled" { 1 } else { cap }, 0, 1, &stats, 3);
         pbt.add(&s.name(), &pb);
         let mut fails = fails;
         fails.extend(pb.failures.clone());
